@@ -157,9 +157,62 @@ def rule_c(repo, res):
     res.check(codes.get("BitstreamViewer._TerminateSuccess") == 0 and codes.get("EOFError") not in (None, 0, 255) and codes.get("BitstreamViewer._TerminateError") not in (None, 0, 255), "C26.c", "run:status-codes", where, "termination/EOF handlers assign %s" % codes, by="success 0, EOF and parse failures non-zero and not 255")
     # is_internal_error: True at viewer frames, False at vc2.py frames, last one wins
     im, ie = repo.func(VIEWER + ":is_internal_error")
-    t = norm(ie)
-    ok = "if filename == _this_script_filename: is_internal = True" in t and "elif filename == _bitstream_vc2_filename: is_internal = False" in t and "is_internal = False" in t.split("for ")[0]
-    res.check(ok, "C26.c", "is_internal_error:frame-rule", "%s:is_internal_error" % im.rel, "is_internal_error must start False, become True at frames of the viewer's file and False again at frames of bitstream/vc2.py", by="last relevant frame decides")
+    ok, det = _frame_rule(repo, im, ie)
+    res.check(ok, "C26.c", "is_internal_error:frame-rule", "%s:is_internal_error" % im.rel, det, by="flag starts False; set True at frames of the viewer's file, False at frames of bitstream/vc2.py; last relevant frame decides")
+
+
+def _frame_rule(repo, m, fn):
+    """is_internal_error: flag initialised False; inside one loop over traceback.extract_tb(tb) it is set
+    True when the frame's file is this script and False when it is bitstream/vc2.py; the flag is returned."""
+    rets = [r for r in ast.walk(fn) if isinstance(r, ast.Return)]
+    if len(rets) != 1 or not isinstance(rets[0].value, ast.Name):
+        return False, "is_internal_error must return its flag variable"
+    flag = rets[0].value.id
+    body = [b for b in fn.body if not (isinstance(b, ast.Expr) and isinstance(b.value, ast.Constant))]
+    init = [b for b in body if isinstance(b, ast.Assign) and dotted(b.targets[0]) == flag]
+    if len(init) != 1 or not (isinstance(init[0].value, ast.Constant) and init[0].value.value is False):
+        return False, "the flag must be initialised to False once, before the loop over the frames"
+    loops = [b for b in body if isinstance(b, ast.For)]
+    if len(loops) != 1 or body.index(init[0]) > body.index(loops[0]) or body.index(loops[0]) > body.index(rets[0]):
+        return False, "expected initialisation, one loop over the frames, then the return"
+    loop = loops[0]
+    # the iterable is extract_tb(<param>) (possibly through a local)
+    it = loop.iter
+    if isinstance(it, ast.Name):
+        ds = [a.value for a in body if isinstance(a, ast.Assign) and dotted(a.targets[0]) == it.id]
+        it = ds[0] if len(ds) == 1 else it
+    if not (isinstance(it, ast.Call) and (dotted(it.func) or "").endswith("extract_tb") and it.args and dotted(it.args[0]) == fn.args.args[0].arg):
+        return False, "the loop must run over traceback.extract_tb(tb)"
+    # the two module-level file names
+    def origin(name):
+        vals = m.assigns.get(name, [])
+        if len(vals) == 1 and isinstance(vals[0], ast.Call) and (dotted(vals[0].func) or "").endswith("getsourcefile") and vals[0].args:
+            a = vals[0].args[0]
+            if isinstance(a, ast.Subscript) and "sys.modules" in norm(a) and "__name__" in norm(a):
+                return "self"
+            d = dotted(a) or ""
+            if d.endswith("bitstream.vc2") or d == "vc2":
+                return "vc2"
+        return None
+    sets = {}
+    other = []
+    for n in ast.walk(loop):
+        if isinstance(n, ast.Assign) and dotted(n.targets[0]) == flag:
+            p = getattr(n, "_parent", None)
+            if isinstance(p, ast.If) and n in p.body and isinstance(p.test, ast.Compare) and len(p.test.ops) == 1 and isinstance(p.test.ops[0], ast.Eq) and isinstance(n.value, ast.Constant):
+                names = [dotted(p.test.left), dotted(p.test.comparators[0])]
+                o = [origin(x) for x in names if x and origin(x)]
+                if len(o) == 1:
+                    sets[o[0]] = n.value.value
+                    continue
+            other.append(short(n))
+        if isinstance(n, (ast.Break, ast.Return, ast.Continue)):
+            other.append(short(n))
+    if other:
+        return False, "unrecognised statements in the frame loop: %s" % other
+    if sets != {"self": True, "vc2": False}:
+        return False, "the flag must become True at frames of the viewer's own file and False at frames of bitstream/vc2.py (found %s)" % sets
+    return True, ""
 
 
 MONITOR_METHODS = ("__call__", "_print_value", "_print_omitted_bits", "_print_internal_state", "_update_status_line", "_hide_status_line")
